@@ -13,7 +13,7 @@ RULE = ("real ssnet.runonce on both tunnel ends over fake sockets, every micro-s
         "accepted; distinct by case seed; PLUS datagram flows: the REAL server.main loop with a conforming peer, a healthy UDP association and DNS query next to 1-3 victim flows whose connect/send/recv/sendto/recvfrom fail with every errno of a 22-element set, persistently (every attempt) or transiently, probes on the healthy flows and a new query afterwards; the real client functions with the delivery of one source's replies failing at bind/sendto, persistently or once")
 TRUSTED_BASE = sc.STREAM_TB + ["datagram part: the fake listener / reply / resolver sockets, select() and the two clocks (time.time and time.monotonic, different epochs) of harness/props/dgram_common.py stand for the kernel; it is an oracle on the real code only (the model comparison of the same code is done by ./check C10 and C11)"]
 ASSUMPTIONS = sc.STREAM_ASSUMPTIONS
-PROFILES = ["fault","fault","wrap","close"]
+PROFILES = ["fault","fault","wrap","close","tunnel"]
 
 
 def fd_exhaustion(ctx):
@@ -108,8 +108,100 @@ def fd_exhaustion(ctx):
                     ctx.violation(what, {"fd_exhaustion": {"errno": errno.errorcode[err], "pending_connections": pending}})
 
 
+ACCEPT_SCRIPTS = [["abort"], ["ok", "abort", "ok"], ["abort", "abort", "ok"], ["ok", "ok", "abort"],
+                  ["abort", "ok", "abort", "ok", "ok"]]
+
+
+def run_accept_script(script):
+    """the real client.onaccept_tcp on a real Mux; the listener's accept() answers per script: "ok" = a healthy
+    connection, "abort" = the application reset its connection while it was waiting in the listen queue, which
+    accept() reports as ECONNABORTED (POSIX; FreeBSD / macOS tcp_usr_accept).  Returns None or what went wrong."""
+    import errno
+    import socket
+    import sshuttle.client as client
+    import sshuttle.ssnet as ssnet
+
+    class F(object):
+        def fileno(self):
+            return 7
+
+        def read(self, n):
+            return None
+
+        def write(self, b):
+            return len(b)
+
+    class Sock(object):
+        family = socket.AF_INET
+        closed = False
+
+        def __init__(self, n):
+            self.n = n
+
+        def fileno(self):
+            return 100 + self.n
+
+        def getsockname(self):
+            return ("127.0.0.1", 12300)
+
+        def getpeername(self):
+            return ("10.1.1.%d" % self.n, 40000)
+
+        def setblocking(self, x):
+            pass
+
+        def close(self):
+            self.closed = True
+
+    class Listener(object):
+        def __init__(self):
+            self.todo = list(script)
+            self.accepted = []
+
+        def accept(self):
+            k = self.todo.pop(0)
+            if k == "abort":
+                raise OSError(errno.ECONNABORTED, os.strerror(errno.ECONNABORTED))
+            s_ = Sock(len(self.accepted) + 1)
+            self.accepted.append(s_)
+            return s_, ("10.1.1.%d" % s_.n, 40000)
+
+    class Method(object):
+        @staticmethod
+        def get_tcp_dstip(sock):
+            return ("192.0.2.1", 80)
+
+    mux = ssnet.Mux(F(), F())
+    handlers = [mux]
+    lst = Listener()
+    for i, k in enumerate(script):
+        try:
+            client.onaccept_tcp(lst, Method, mux, handlers)
+        except Exception as e:
+            return ("connection %d of the script was reset while waiting to be accepted (accept() answers ECONNABORTED): "
+                    "onaccept_tcp raised %s, which ends the client's main loop and with it every flow of the tunnel"
+                    % (i + 1, type(e).__name__)) if k == "abort" else "onaccept_tcp raised %s on a healthy connection" % type(e).__name__
+    want = script.count("ok")
+    flows = [h for h in handlers if isinstance(h, ssnet.Proxy)]
+    if len(flows) != want or any(x.closed for x in lst.accepted):
+        return "%d healthy connections arrived next to the reset ones, %d were given a flow" % (want, len(flows))
+    return None
+
+
+def accept_abort(ctx):
+    """a reset 'at any moment' includes the moment before the client accepts the connection"""
+    for script in ACCEPT_SCRIPTS:
+        what = run_accept_script(script)
+        ctx.case(("accept_abort", tuple(script)), nontrivial=True)
+        ctx.count("accept_abort_scripts")
+        if what:
+            ctx.violation("a connection reset before accept() takes the client down" if "reset while waiting" in what else what,
+                          {"accept_script": script, "detail": what})
+
+
 def correspondence(ctx):
     fd_exhaustion(ctx)
+    accept_abort(ctx)
     sc.stream_check(ctx, PROP, PROFILES, 120, 2500)
     # socket faults of DNS / UDP flows on both ends (server.py DnsProxy / UdpProxy, client.py dns_done / udp_done)
     dc.run_c08_dgram(ctx)
@@ -121,6 +213,10 @@ def replay(ctx, rp):
         n = len(ctx.violations)
         fd_exhaustion(ctx)
         return len(ctx.violations) > n
+    if rp.get("replay", {}).get("accept_script"):
+        r = run_accept_script(rp["replay"]["accept_script"])
+        print("accept script:", rp["replay"]["accept_script"], "->", r)
+        return bool(r)
     if rp.get("replay", {}).get("script"):
         return bool(dc.replay_c08_dgram(rp))
     return sc.stream_replay(ctx, rp, PROP)
